@@ -17,7 +17,20 @@ type garbage struct {
 
 // mutate a well-formed condition into a non-sentence
 func mutateCond(r *Rng, valid string, other string) garbage {
-	switch r.Intn(11) {
+	switch r.Intn(14) {
+	case 11: // a member of an IN list or a BETWEEN bound that is not an operand, on an attribute the item may lack
+		left := pick(r, []string{"nosuch", "b", "n1", "m1.nokey", "l1[7]"})
+		bad := pick(r, []string{"a = :v0", "NOT b", "size(b)", "b AND n1", "attribute_exists(b)", "b.c = :v0"})
+		if r.Chance(70) {
+			return garbage{left + " IN (:v0, " + bad + ")", "in-operand", true}
+		}
+		return garbage{"NOT (" + left + " IN (" + bad + ", :v1))", "in-operand", true}
+	case 12, 13: // an unknown byte at the very beginning or the very end
+		ch := pick(r, []string{"\x00", "\xff", "!", "\x80", "\x7f", "\x01"})
+		if r.Chance(60) {
+			return garbage{valid + ch, "unknown-char-edge", true}
+		}
+		return garbage{ch + valid, "unknown-char-edge", true}
 	case 9, 10:
 		// an operand where a condition is required, next to a well-formed condition: the verdict must not
 		// depend on whether the item makes the well-formed side decide the connective
@@ -75,7 +88,13 @@ func mutateCond(r *Rng, valid string, other string) garbage {
 }
 
 func mutateUpdate(r *Rng, valid string) garbage {
-	switch r.Intn(8) {
+	switch r.Intn(10) {
+	case 8, 9: // an unknown byte at the very beginning or the very end
+		ch := pick(r, []string{"\x00", "\xff", "!", "\x80", "\x7f", "\x01"})
+		if r.Chance(60) {
+			return garbage{valid + ch, "unknown-char-edge", true}
+		}
+		return garbage{ch + valid, "unknown-char-edge", true}
 	case 0:
 		return garbage{valid + pick(r, []string{",", " ,", " =", " )", " zz", " :v0 :v1"}), "trailing", true}
 	case 1:
